@@ -18,10 +18,13 @@ package main
 
 import (
 	"fmt"
+	"go/ast"
 	"go/token"
 	"go/types"
 	"math"
 	"sort"
+
+	"golang.org/x/tools/go/types/typeutil"
 )
 
 type segCase struct {
@@ -207,37 +210,100 @@ func segDistModel(c *Ctx, rule string) {
 			}
 		}
 	}
+	// a member of the family returns the distance — or, as a helper of one that does, its square
+	type famRes struct {
+		fn       *types.Func
+		sq       bool
+		bad, unk string
+	}
+	var results []*famRes
 	for _, fn := range fns {
-		cons := c.P.FuncName(fn) + "#clamped-projection"
-		pos := c.P.Decl(fn).Pos()
-		bad, unk := "", ""
+		r := &famRes{fn: fn}
+		results = append(results, r)
+		mode := "" // "dist" or "sq", fixed by the first position that tells them apart
 		for _, k := range cases {
 			got, v, why := segEval(c, fn, k)
 			if why != "" {
 				if len(why) > 6 && why[:6] == "panic:" {
-					bad = fmt.Sprintf("%s: the function panics (%s)", k.what, why)
+					r.bad = fmt.Sprintf("%s: the function panics (%s)", k.what, why)
 				} else {
-					unk = fmt.Sprintf("%s: not interpretable: %s", k.what, why)
+					r.unk = fmt.Sprintf("%s: not interpretable: %s", k.what, why)
 				}
 				break
 			}
 			wants, wv := segSpec2(k)
 			if polyHasNaN(got) {
-				bad = fmt.Sprintf("%s (p = (%d, %d), segment (%d, %d)–(%d, %d)): the result is not a number (a division of zero by zero), the distance is %.6g", k.what, k.p.x, k.p.y, k.s.x, k.s.y, k.e.x, k.e.y, math.Sqrt(wv))
+				r.bad = fmt.Sprintf("%s (p = (%d, %d), segment (%d, %d)–(%d, %d)): the result is not a number (a division of zero by zero), the distance is %.6g", k.what, k.p.x, k.p.y, k.s.x, k.s.y, k.e.x, k.e.y, math.Sqrt(wv))
 				break
 			}
-			matches := false
+			asDist, asSq := false, false
 			for _, w := range wants {
 				if symRationalEqual(symMul(got, got), w) {
-					matches = true
+					asDist = true
 				}
+				if symRationalEqual(got, w) {
+					asSq = true
+				}
+			}
+			matches := false
+			switch {
+			case mode == "" && asDist && asSq:
+				matches = true // 0 or 1: both readings agree here
+			case mode == "" && asDist:
+				mode, matches = "dist", true
+			case mode == "" && asSq:
+				mode, matches = "sq", true
+			case mode == "dist":
+				matches = asDist
+			case mode == "sq":
+				matches = asSq
 			}
 			want := wants[0]
 			if !matches {
-				bad = fmt.Sprintf("%s (p = (%d, %d), segment (%d, %d)–(%d, %d)): the result is %s (%.6g at these coordinates); the distance to the segment is the root of %s (%.6g): the projection on the line is not clamped to the segment, or the foot point is not start + ((p−start)·(end−start) / |end−start|²)·(end−start)", k.what, k.p.x, k.p.y, k.s.x, k.s.y, k.e.x, k.e.y, short(got.canon()), v, short(want.canon()), math.Sqrt(wv))
+				what := "the distance to the segment is the root of"
+				if mode == "sq" {
+					what = "the squared distance to the segment (what the function returned elsewhere) is"
+				}
+				r.bad = fmt.Sprintf("%s (p = (%d, %d), segment (%d, %d)–(%d, %d)): the result is %s (%.6g at these coordinates); %s %s (%.6g): the projection on the line is not clamped to the segment, or the foot point is not start + ((p−start)·(end−start) / |end−start|²)·(end−start)", k.what, k.p.x, k.p.y, k.s.x, k.s.y, k.e.x, k.e.y, short(got.canon()), v, what, short(want.canon()), math.Sqrt(wv))
 				break
 			}
 		}
-		report3(c, rule, cons, pos, bad, unk, fmt.Sprintf("the squared result equals the squared distance to the nearest point of the segment as a rational term, in %d positions of the point relative to the segment (both ends, both perpendiculars, the interior, a degenerate segment)", len(cases)))
+		r.sq = mode == "sq"
+	}
+	// a function that returns the square is accepted as the helper of a member that returns the
+	// distance itself and calls it; on its own it is not a distance
+	calls := func(caller, callee *types.Func) bool {
+		fd, pk := c.P.Decl(caller), c.P.DeclPkg(caller)
+		if fd == nil || fd.Body == nil || pk == nil {
+			return false
+		}
+		found := false
+		ast.Inspect(fd.Body, func(n ast.Node) bool {
+			if ce, ok := n.(*ast.CallExpr); ok {
+				if f, _ := typeutil.Callee(pk.TypesInfo, ce).(*types.Func); f == callee {
+					found = true
+				}
+			}
+			return !found
+		})
+		return found
+	}
+	for _, r := range results {
+		if r.sq && r.bad == "" && r.unk == "" {
+			helper := false
+			for _, o := range results {
+				if o != r && !o.sq && o.bad == "" && o.unk == "" && calls(o.fn, r.fn) {
+					helper = true
+				}
+			}
+			if !helper {
+				r.bad = "the function returns the square of the distance to the segment in every position, and no function of the family that returns the distance itself calls it: as a distance it is wrong by a square"
+			}
+		}
+		okText := fmt.Sprintf("the squared result equals the squared distance to the nearest point of the segment as a rational term, in %d positions of the point relative to the segment (both ends, both perpendiculars, the interior, a degenerate segment)", len(cases))
+		if r.sq {
+			okText = fmt.Sprintf("the result equals the squared distance to the nearest point of the segment as a rational term in %d positions, and a member of the family that returns the distance itself calls it", len(cases))
+		}
+		report3(c, rule, c.P.FuncName(r.fn)+"#clamped-projection", c.P.Decl(r.fn).Pos(), r.bad, r.unk, okText)
 	}
 }
